@@ -505,15 +505,24 @@ XML = {}
 def _child_body(seq, base, xml):
     ctx = Ctx()
     res = []
+    pchanged = []
     for ev in seq:
         ev = tuple(ev)
+        before = dict(ctx.params.params) if ctx.params is not None else None
         obs = mask(ev[1], run_event(ev, ctx, lambda d: xml[d]))
+        if ctx.params is not None:
+            if before is None:
+                before = dict(pyx12.params.params().params)      # first use: compare with a fresh object's content
+            after = dict(ctx.params.params)
+            for k in sorted(set(before) | set(after)):
+                if before.get(k) != after.get(k):
+                    pchanged.append('%s: %r -> %r during %s(%s,%s)' % (k, before.get(k), after.get(k), OPNAME[ev[1]], ev[0], ev[2]))
         diffs = compare(ev[1], obs, base[base_key(ev)])
         dig = hashlib.sha1(json.dumps(obs, sort_keys=True).encode()).hexdigest()[:8]
         res.append({'dig': dig, 'diffs': diffs, 'tag': obs.get('verdict') or obs.get('raises') or ''})
     now = mutable_defaults()
     changed = sorted(k for k in set(now) | set(DEFAULTS0) if now.get(k) != DEFAULTS0.get(k))
-    return {'events': res, 'defaults': changed}
+    return {'events': res, 'defaults': changed, 'params': pchanged}
 
 
 def run_sequence(seq, base, xml):
@@ -563,6 +572,8 @@ def judge(seq, out):
             viols.append(('C18|%s|%s' % (OPNAME[ev[1]], comp),
                           '%s(%s,%s)%s differs from the same event alone in a new interpreter: %s'
                           % (OPNAME[ev[1]], ev[0], ev[2], hist, desc)))
+    for q in out.get('params', []):
+        viols.append(('C18|params|the caller\'s params object was changed by the library', 'shared params object: %s' % q))
     for q in out['defaults']:
         viols.append(('C18|mutable-default|%s' % q.split('#')[0],
                       'default argument %s is no longer %s after %s' % (q, DEFAULTS0.get(q), [list(e) for e in seq])))
